@@ -120,7 +120,8 @@ class H(semh.Base):
             elif vform.startswith("arith_vw:"):
                 t3 = vform.split(":")[1]
                 pre += f" {t3} w ;"
-                value = "v + w" if not vform.endswith(":r") else "w + v"
+                op = vform.split(":")[2] if len(vform.split(":")) > 2 and vform.split(":")[2] in "+-*/" else "+"
+                value = f"v {op} w" if not vform.endswith(":r") else f"w {op} v"
             else:
                 value = {"var": "v", "arith_vv": "v + v", "arith_vl": "v + 1", "mul_vv": "v * v", "neg": "- v", "cast": f"{s2} ( v )", "paren": "( v )"}[vform]
             if form == "decl":
@@ -262,7 +263,7 @@ def build_tasks(quick):
                     for t2 in types:
                         for w2 in wopts(t2):
                             for c2 in ((False,) if form == "assign" or quick else (False, True)):
-                                for vf in list(vforms) + ([f"arith_vw:{t3}{sfx}" for t3 in ("int", "uint", "float", "bool", "angle", "complex") for sfx in ("", ":r")] if (form == "decl" and not w1 and not w2 and not c1 and not c2) else []):
+                                for vf in list(vforms) + ([f"arith_vw:{t3}{sfx}" for t3 in ("int", "uint", "float", "bool", "angle", "complex") for sfx in ("", ":r", ":/", ":/:r", ":*", ":-:r")] if (form == "decl" and not w1 and not w2 and not c1 and not c2) else []):
                                     if vf in ("arith_vv", "arith_vl", "mul_vv", "neg") and t1 in ("bit", "bool", "duration", "stretch"):
                                         continue
                                     if vf.startswith("arith_vw:") and t1 in ("bit", "duration", "stretch"):
